@@ -44,12 +44,12 @@ P = {
     "coq_targets": ["Properties/C05.vo", "Run/Eval_C05.vo"],
     "theorems_module": "Properties.C05",
     "theorems": ["C05_accept_sound", "C05_demands_unfold", "C05_accept_complete", "C05_authenticate_iff_spec",
-                 "C05_F3_refuted", "C05_F5_refuted", "C05_pinned_iff_spec", "C05_F1_pinned_refuted", "C05_F2_pinned_refuted", "C05_subject_from_verified_claims",
+                 "C05_F3_refuted", "C05_F5_fixed", "C05_pinned_iff_spec", "C05_F1_pinned_refuted", "C05_F2_pinned_refuted", "C05_subject_from_verified_claims",
                  "C05_unsigned_rejected", "C05_modified_or_foreign_token_rejected", "C05_alg_confusion_rejected",
                  "C05_merge_precedence", "C05_algorithm_tables", "C05_claim_decoding", "C05_scope_matching",
                  "C05_accepted_scopes_satisfied", "C05_nonvacuous",
-                 "C05_cache_history_stateless", "C05_judged_statelessly_unfold", "C05_cache_history_spec", "C05_F4_refuted",
-                 "C05_cache_fixed_history_spec", "C05_cache_transparent", "C05_cache_examples"],
+                 "C05_cache_history_stateless", "C05_judged_statelessly_unfold", "C05_cache_history_spec", "C05_cache_pinned_history_stateless",
+                 "C05_F4_pinned_refuted", "C05_cache_transparent", "C05_cache_examples"],
     "streams": [{
         "name": "tokens", "pkg": "./internal/rules/mechanisms/authenticators", "test": "TestVerifC05",
         "overlay": {"internal/rules/mechanisms/authenticators/zz_verif_c05_test.go": "c05/c05_test.go"},
@@ -58,7 +58,7 @@ P = {
     }, {
         "name": "keycache", "pkg": "./internal/rules/mechanisms/authenticators", "test": "TestVerifC05Cache",
         "overlay": {"internal/rules/mechanisms/authenticators/zz_verif_c05_test.go": "c05/c05_test.go"},
-        "eval_module": "Run.Eval_C05", "check_term": "check_hist true true false",
+        "eval_module": "Run.Eval_C05", "check_term": "check_hist true true true",
         "n_quick": 500, "n_thorough": 12000, "findings": {1: "C05-F1", 2: "C05-F2", 3: "C05-F3", 4: "C05-F4", 5: "C05-F5"}, "shard": 150,
     }],
     "rule": "a jwt authenticator created by the real type registry from a generated configuration (issuers, audience, scopes "
@@ -134,18 +134,19 @@ P = {
                   "against one authenticator with its JWK cache (templated key-set URL over the unverified issuer, key sets "
                   "changing in between) every answer equals the cache-less answer against the key set that is or was published at "
                   "the request's own rendered URL, the present one when the token has no kid or the cache is off - a cached key "
-                  "is never reused for another url or kid (C05_cache_history_stateless/_spec/_transparent), for histories whose "
-                  "requests validate JWK certificates alike or on which the open finding C05-F4 does not show; with the proposed "
-                  "repair of C05-F4 for all histories (C05_cache_fixed_history_spec). Claim decoding and the three scope matching "
+                  "is never reused for another url or kid, and a cached key is validated with the settings of the mechanism at hand "
+                  "(C05_cache_history_stateless/_spec/_transparent, for all histories; cache entries are keyed by rendered url, "
+                  "kid and configured cache_ttl). Claim decoding and the three scope matching "
                   "strategies are proved equal to declarative relations stated in the specification (C05_claim_decoding, "
                   "C05_scope_matching). Two deviations found "
                   "by the model (exp <= 0 never expired; nbf/iat >= 2^63 wrapped to 'not set') were repaired by fix: commits "
                   "a3a89b7 and f16c3cc; the theorem is about the repaired code, the former behaviour is kept as "
-                  "C05_pinned_iff_spec / C05_F1_pinned_refuted / C05_F2_pinned_refuted. Open findings, each with guard, "
-                  "refutation witness and corpus replay: C05-F3 (exp = -62135596800, Go's zero time, still counts as absent), "
-                  "C05-F4 (a cached JWK is reused without validation by a mechanism that validates JWK certificates after a laxer "
-                  "one sharing endpoint and cache stored it; fixes/C05-F4.diff), C05-F5 (no issuers configured + metadata without "
-                  "issuer: a token without iss is accepted; fixes/C05-F5.diff). The model is tied to the code by running "
+                  "C05_pinned_iff_spec / C05_F1_pinned_refuted / C05_F2_pinned_refuted. Two more, found in the audit round, were "
+                  "repaired by d20d7cd (C05-F4: a cached JWK was reused without validation by a mechanism that validates JWK "
+                  "certificates after a laxer one sharing endpoint and cache had stored it; pinned: C05_cache_pinned_history_stateless, "
+                  "C05_F4_pinned_refuted) and d55629a (C05-F5: with no issuers configured and metadata without issuer a token "
+                  "without iss was accepted; the model has the repair, C05_F5_fixed). One finding stays open with guard, witness "
+                  "and corpus replay: C05-F3 (exp = -62135596800, Go's zero time, still counts as absent). The model is tied to the code by running "
                   "~1500 (quick) / 40000 (thorough) generated and mutated tokens and ~500 / 12000 request histories with a real "
                   "memory cache per run through the real authenticator against a local JWKS server.",
     "level_note": "Partial by construction: signature verification, JSON/JWS parsing and certificate validation are oracles (trusted "
@@ -158,8 +159,10 @@ P = {
                   "claims' is checked on the Go side (attributes deep-equal the sent payload) and has no theorem (the model has one "
                   "claims record per token, the statement would be true by construction, as 'subject id from the claims' is). Cache entry expiry, metadata_endpoint discovery with templates, custom "
                   "jwt_source and subject "
-                  "attribute templates are not exercised (metadata_endpoint with a fixed URL is). Open findings C05-F3, C05-F4, C05-F5 are printed as "
-                  "KNOWN-FINDING on every run; C05-F1 and C05-F2 are fixed (reverting either commit is reported as VIOLATION).",
+                  "attribute templates are not exercised (metadata_endpoint with a fixed URL is). Open finding C05-F3 is printed as KNOWN-FINDING on every run; C05-F1, F2, F4, F5 are fixed (reverting any of the "
+                  "four commits is reported as VIOLATION with a replay). Reverting 8647e06 (cache_ttl in the cache key, C10-F5) is "
+                  "reported as 'correspondence broken, no failing input': sharing entries between copies with different ttl is not "
+                  "a C05 violation.",
     "extra_coverage": site_coverage,
     "assumptions": ["sane_clock: the clock lies after 1970 and before the int64 horizon by more than the leeway",
                     "first stream: the key cache is off (cache_ttl: 0s), every case fetches its own key set from the local JWKS "
